@@ -254,11 +254,44 @@ class C19(Check):
     comp = 'Path'
     extracted = ['coq/Path/model.mli', 'coq/Path/model.ml', 'ocaml/zconv.ml', 'ocaml/path_driver.ml']
     harness_sources = ['harness/path.cpp']
-    level_text = 'TODO'
-    level_note = 'TODO'
+    level_text = ('Theorems in Coq. A (path functions, for all byte strings): simplifyPath equals the reference normal form '
+                  '(idempotent; lexically equivalent to its input, where equivalence = same kind and same resolution against '
+                  'every current directory; equivalent paths get the same text), directory+base and stem+extension recompose the '
+                  'path, the scanners equal the reference "before/after the last separator (dot)", and from + getRelativePath(from,to) '
+                  'simplifies to simplifyPath(to) whenever a lexical answer exists. B (files/directories): executable model of the '
+                  'library logic (open flag mapping, size/readAll/write/seek, rename with exclusive placeholder, copy, recursive '
+                  'create, recursive unlink by entry type) over a Gallina file-system tree with files, directories and symbolic links; '
+                  'any history on a read-write handle refines a byte buffer with cursor, copy/rename carry the bytes, failed '
+                  'open/rename change nothing and failed copy adds no name, create returns true iff the directory exists afterwards '
+                  'and then all parents exist, recursive unlink yields the tree with exactly that sub-tree cut out and refuses a '
+                  'symbolic link, every reachable tree is well-formed. The models are tied to the code by running extracted model, '
+                  'extracted reference and the ASan/UBSan build of the working tree on the same inputs: all path strings up to length '
+                  '7 over {/ \\ . a b} (thorough), and the real File/Directory code on scratch trees with an outside sentinel '
+                  'reached through symbolic links (results, full snapshots of both trees, handle cursors compared).')
+    level_note = ('Partial for B: the kernel (path resolution with symbolic links, open/read/write/lseek/sendfile/rename/unlink/'
+                  'mkdir/rmdir/symlink/stat/readdir; FsModel part K) is a trusted model, validated only by correspondence on one '
+                  'file system (ext4 of the sandbox, as root, no permission failures, no hard links); descriptors name files by '
+                  'canonical path, so a file renamed/unlinked while a handle on it is open is outside the model. The unlink theorem '
+                  'is stated for paths of proper names through real directories; unlink through \'.\', \'..\' or symbolic links, '
+                  'a second handle on the same file, read-only/write-only handles, File::unlink and createSymbolicLink are '
+                  'validated by correspondence only. create false => not-exists needs a path text without backslash (the code '
+                  'splits parents at backslashes too, the kernel does not). getRelativePath: from and to of the same kind and no '
+                  'leading \'..\' left in simplifyPath(from) (otherwise no lexical answer exists). For B the expected observations '
+                  'are those of the model of the repaired code. Trusted: Coq kernel, extraction + OCaml driver, harness, generators.')
     technique = 'machine-checked proof (Coq) + model/implementation correspondence'
-    rule = 'TODO'
-    assumptions = []
+    rule = ('A: every string of length <= 5 (thorough 7) over {/ \\ . a b} through all scanners, simplifyPath twice and '
+            'isAbsolutePath; every pair of strings of length <= 3 (4) through getRelativePath; explicit extensions; random longer '
+            'paths from a vocabulary of components sharing prefixes. Non-trivial = a path with a separator and a name. '
+            'B: one case = a scratch tree (random or one of 4 fixed trees: directories, files, symbolic links to ../out, to '
+            'files, dangling, self-referential) + operations: handle histories under every open-flag mapping with re-read, '
+            'copy/rename of the result; create/unlink on existing, missing, file-in-the-way, dotted and linked paths; '
+            'rename/copy/open aimed at each failure branch; exhaustively every path of <= 2 (3) components over {a b l [f] . ..} '
+            'for create/unlink and every pair of short paths for rename/copy with both failIfExists values. Non-trivial = a '
+            'library operation ran and its answer was observed; distinct = distinct op text.')
+    assumptions = ['kernel file-system semantics as modelled in coq/Path/FsModel.v part K (validated by correspondence on ext4, uid 0)',
+                   'no file is renamed or unlinked while a handle on it is open; no hard links; no permission failures',
+                   'getRelativePath: same kind of from/to, simplifyPath(from) has no leading ".."',
+                   'Directory::create false => not-exists: path text without backslash']
 
     FS_SETUP = ('mkd', 'mkf', 'mkl')
 
